@@ -29,14 +29,25 @@ def make_replay(prop, result, fo, seed):
     }
     found = False
     try:
-        if result["backend"] == "cbmc":
-            import cbmc_backend
-            rp = cbmc_backend.replay(fo, common.REPO)
+        if result["backend"] == "cbmc" or fo.get("search") == "c_api":
+            rp = None
+            if result["backend"] == "cbmc":
+                import cbmc_backend
+                rp = cbmc_backend.replay(fo, common.REPO)
             if rp:
                 rec["search"] = {"method": "cbmc trace re-executed on the real C sources under ASan/UBSan",
                                  "output": rp.get("output", "")[-3000:], "driver": rp.get("driver")}
                 if rp.get("reproduced"):
                     rec["failing_input"] = fo.get("inputs")
+                    found = True
+            if not found and prop in ("C06", "C07"):
+                # no (reproducible) verifier counterexample: directed search over C API histories on the real library
+                import search_c
+                hit = search_c.find(prop, fo, seed)
+                rec["search_c"] = hit.get("log")
+                if hit.get("found"):
+                    rec["failing_input"] = hit["found"]
+                    rec["failing_input_from"] = "search_c"
                     found = True
         else:
             import search
@@ -60,6 +71,11 @@ def rerun(path):
         print("no failing input recorded (verifier gave no model and the directed search found none);")
         print("verifier output:\n" + (rec.get("verifier_output") or ""))
         return 1
+    if rec.get("failing_input_from") == "search_c":
+        import search_c
+        r = search_c.rerun(fi)
+        print(json.dumps(r, indent=1)[:4000])
+        return 1 if r.get("reproduced") else 0
     if rec["backend"] == "cbmc":
         import cbmc_backend
         rp = cbmc_backend.replay({"function": rec["obligation"]["function"], "kind": rec["obligation"]["kind"],
